@@ -102,7 +102,8 @@ static struct { const char *p; int slot; } pcache[PCACHE];
 static int counter_slot(const char *name, int ismax)
 {
 	size_t h = ((uintptr_t) name >> 3) % PCACHE;
-	if (pcache[h].p == name) return pcache[h].slot;
+	/* the cache is keyed by address; names built in a reused buffer are told apart by content */
+	if (pcache[h].p == name && !strncmp(st->c[pcache[h].slot].name, name, sizeof(st->c[0].name) - 1)) return pcache[h].slot;
 	uint32_t i;
 	for (i = 0; i < st->ncounters; i++) {
 		if (!strncmp(st->c[i].name, name, sizeof(st->c[i].name) - 1)) break;
